@@ -179,6 +179,19 @@ def _worker(args):
         for idx, case in zip(idxs, it):
             try:
                 res = guarded(fn, case, limit)
+            except (HarnessError, MemoryError, KeyboardInterrupt):
+                raise
+            except Exception as exc:  # noqa: BLE001
+                # The case functions never raise on the unchanged tree (every library call is guarded where the property
+                # allows an exception).  An exception escaping here therefore means the library returned something the
+                # oracle cannot even inspect (wrong type, missing attribute): report it as a violation of this case.
+                tb = traceback.extract_tb(exc.__traceback__)
+                where = next((f"{os.path.basename(f.filename)}:{f.name}" for f in reversed(tb) if "/icalendar/" in f.filename), "harness")
+                res = {"state": ("EXC", type(exc).__name__, where), "outcome": "EXCEPTION", "nontrivial": True,
+                       "fails": [{"cls": f"unexpected-exception:{type(exc).__name__}@{where}", "case": case,
+                                  "expected": "an observation the oracle can inspect",
+                                  "observed": "".join(traceback.format_exception_only(type(exc), exc)).strip()[:300] + " | " +
+                                              " <- ".join(f"{os.path.basename(f.filename)}:{f.lineno}" for f in tb[-4:])}]}
             except CaseTimeout:
                 agg.timeouts += 1
                 res = {"state": ("TIMEOUT",), "outcome": "TIMEOUT", "nontrivial": True,
